@@ -172,6 +172,68 @@ def mon_c17(hs, prev, op, ok, trace, cur, known):
     return None
 
 
+def mon_c17_share(hs, prev, op, ok, trace, cur, known):
+    """C17, first sentence, on every executed UpdateGlobalIndex (hub -> dispatcher SwapToRewardDenom followed
+    by DispatchRewards) with working stubs: what the dispatcher then holds of the stSei-side coin - which
+    is exactly what DispatchRewards sends out in that coin - equals total rewards x stSei bonded / total
+    bonded at the oracle price, within the rounding of one unit of the sold coin"""
+    if not ok or prev is None:
+        return None
+    env = prev.one('env')
+    pcfg = prev.one('dp.cfg')
+    st = prev.one('hub.stored')
+    if env is None or pcfg is None or st is None or env[2] != 'ok' or env[3] != 'ok':
+        return None
+    std, bd = pcfg[3], pcfg[4]
+    if (std, bd) != ('usei', 'uusd') or pcfg[1] != 'hub':
+        return None
+    # E4: the dispatcher swaps through the stub contracts and both reward coins are among its swap denoms
+    if pcfg[7] != 'swap' or pcfg[8] != 'oracle' or 'usei' not in pcfg[10:] or 'uusd' not in pcfg[10:]:
+        return None
+    tl = [ln.split(' ') for ln in trace]
+    isw = next((i for i, u in enumerate(tl) if u[1] == 'wasm' and u[2] == 'hub' and u[3] == 'disp' and u[4] == 'swap_to_reward_denom'), None)
+    if isw is None:
+        return None
+    idp = next((i for i, u in enumerate(tl) if i > isw and u[1] == 'wasm' and u[2] == 'hub' and u[3] == 'disp' and u[4] == 'dispatch_rewards'), None)
+    if idp is None:
+        return None
+    # the offered coin must be covered by what the dispatcher held when it asked for the swap
+    held = {}
+    for b in prev.all('bank'):
+        if b[0] == 'disp':
+            held[b[1]] = int(b[2])
+    wd = {x[0]: x[1] for x in prev.all('wdaddr')}
+    if wd.get('hub') == 'disp':
+        wdr = set(u[3] for u in tl[:isw] if u[1] == 'withdraw' and u[2] == 'hub')
+        for x in prev.all('pend'):
+            if x[0] == 'hub' and x[1] in wdr:
+                held[x[2]] = held.get(x[2], 0) + int(x[3])
+    P = int(env[1])
+    q = 10 ** 36 // P                      # usei per uusd, 18-decimal atomics
+    out = {'usei': 0, 'uusd': 0}
+    for u in tl[idp + 1:]:
+        if u[1] == 'bank' and u[2] == 'disp':
+            for d, a in _coins(u[4]):
+                if d in out:
+                    out[d] += a
+        elif u[1] == 'wasm' and u[2] == 'disp' and u[4] == 'bond_rewards':
+            for d, a in _coins(u[5]):
+                if d in out:
+                    out[d] += a
+    bb, bst = int(st[2]), int(st[3])
+    if bb + bst == 0:
+        return None
+    total_usei = out['usei'] + out['uusd'] * q // D
+    # | out_usei - total * bst / (bb + bst) | <= tol, in integers
+    tol = 4 + 2 * (q // D + 1) + 2 * (P // D + 1)
+    lhs = out['usei'] * (bb + bst)
+    rhs = total_usei * bst
+    if abs(lhs - rhs) > tol * (bb + bst):
+        return ('violation', 'after the swap the stSei-side share is %d usei of rewards worth %d usei in total; stSei bonded %d of %d bonded '
+                'gives %d (price %d)' % (out['usei'], total_usei, bst, bb + bst, rhs // (bb + bst), P))
+    return None
+
+
 TX_HEADS = ('hub', 'cw', 'reward', 'disp', 'reg', 'bond')
 
 
@@ -499,7 +561,7 @@ HISTORY_MONITORS = {
     'C18': [mon_c18],
     'C10': [mon_c10, mon_rejected_unchanged],
     'C11': [mon_c11, mon_rejected_unchanged],
-    'C17': [mon_c17, M2.guarded(M2.mon_c17_f2)],
+    'C17': [mon_c17, mon_c17_share, M2.guarded(M2.mon_c17_f2)],
     'C20': [mon_c20, mon_rejected_unchanged],
 }
 
